@@ -37,7 +37,7 @@ pub mod ft {
         i + 1 - (1u64 << depth(i))
     }
     pub fn right_span(i: u64) -> u64 {
-        i - 1 + (1u64 << depth(i))
+        i + (1u64 << depth(i)) - 1
     }
     pub fn left_child(i: u64) -> Option<u64> {
         let d = depth(i);
